@@ -553,11 +553,11 @@ def round_trip(dat, cfg, tmp, name='model.dat', first_write_kwargs=None, cycles=
             if i == 1 and f not in BINARY_FILES: okf = rstrip_lines(a[f]) == rstrip_lines(b[f])
             else: okf = a[f] == b[f]
             if not okf:
-                detail = diff_bytes(a[f], b[f], i)
+                detail = diff_bytes(rstrip_lines(a[f]), rstrip_lines(b[f]), i) if (i == 1 and f not in BINARY_FILES) else diff_bytes(a[f], b[f], i)
                 if i == 1 and f == name and xp_eff:
                     k1 = [l[:5].strip() for l in a[f].decode('latin-1').split('\n')]
                     k2 = [l[:5].strip() for l in b[f].decode('latin-1').split('\n')]
-                    lost = [k for k in xp_eff if k in k1 and k not in k2]
+                    lost = [k for k in xp_eff if k1.count(k) > k2.count(k)]
                     if lost: detail = 'ECHO-LOST %s: %s' % (lost, detail)
                 fails.append(('rewrite' if i == 1 else 'cycle', 'dat' if f == name else (f.split('.')[-1] if '.' in f else f), detail))
         if i < cycles:
@@ -619,5 +619,41 @@ def run_file(path, meshfilename, cycles=2):
         mesh = 'infile' if not meshfilename else ('ascii' if isinstance(meshfilename, str) else 'binary')
         cfg = {'mesh': mesh, 'xp': list(dat.extra_precision) or None, 'echo': dat.echo_extra_precision}
         return round_trip(dat, cfg, tmp, os.path.basename(path), None, cycles), cfg, bool(dat.simulator)
+    finally:
+        shutil.rmtree(tmp, ignore_errors=True)
+
+
+# ------------------------------------------------------------------ files written by an independent Fortran-style writer
+def run_fortran(spec):
+    """spec (already restricted to the Fortran writer's sections) -> failures.  The file must read as what it says,
+    then the object read obeys the round trip statement."""
+    from props import c01_fortran as ff
+    from t2data import t2data, t2data_format_specification as MAIN, t2data_extra_precision_format_specification as EXTRA
+    try:
+        pre = ff.preround(spec)
+        text = ff.write_fortran(pre)
+    except ValueError as e:
+        raise OutOfDomain(str(e))
+    tmp = tempfile.mkdtemp(prefix='c01ff_')
+    try:
+        path = os.path.join(tmp, 'fortran.dat')
+        with open(path, 'w') as f: f.write(text)
+        auto = bool(spec['simulator'])
+        try:
+            with quiet(): r = t2data(path)
+        except Exception as e:
+            return [('read-raises', type(e).__name__, repr(e)[:300])], text
+        fails = []
+        want = list(pre['order'])
+        if r._sections != want: fails.append(('sections', 'ORDER', 'file has %s, read %s' % (want, r._sections)))
+        ref = build(pre)
+        exp = normalise(expected(snapshot(ref), Expect(MAIN, EXTRA, [], False), 'infile', auto))
+        act = normalise(snapshot(r))
+        for k in exp:
+            d = first_diff(exp[k], act.get(k), k)
+            if d: fails.append(('content', SECTION_OF.get(k, k), d))
+        sub = os.path.join(tmp, 'rt'); os.makedirs(sub)
+        fails += round_trip(r, {'mesh': 'infile'}, sub, 'fortran.dat', None, 2)
+        return fails, text
     finally:
         shutil.rmtree(tmp, ignore_errors=True)
